@@ -48,10 +48,10 @@ props["C02"] = dict(title="Operators compute the documented result for every com
 
 # ---------------- C03 ----------------
 props["C03"] = dict(title="Names resolve through nested block scopes; shadowing and lifetime follow blocks",
-  bounds="programs of 2 (thorough 3) top-level statements, nesting depth 1 (thorough 2), over declaration / assignment / read / block / for-header / function declaration / call, every name its own symbolic code point (all collision patterns), run through the real Interpret; recursion depth <= 2; plus VH_scopeLate: a function using a symbolic name, called before and after an arbitrary statement (which may introduce a nearer binding of that name) inside a block / function body / loop body",
+  bounds="programs of 2 (thorough 3) top-level statements, nesting depth 1 (thorough 2), over declaration / assignment / read / block / for-header / function declaration / call, every name its own symbolic code point (all collision patterns), run through the real Interpret; recursion depth <= 2; plus VH_scopeLate: a function using a symbolic name, called before and after an arbitrary statement (which may introduce a nearer binding of that name) inside a block / function body / loop body; VH_paramShadow: a parameter bearing the name of any built-in, read and called in the function and in a nested function; VH_scopeBlockFn: a function declared in a block / for body / while body that declares nothing else",
   assumptions=["oracle: scope model of DESIGN E.6 (dynamic resolution through the closure chain, as the property's domain restriction allows)", "values are distinct concrete numbers; reads are print statements"]+A_COMMON[:2],
-  quick=[J(I,"VH_scope",1,1, loop_fuel=300), J(I,"VH_scope",2,1, loop_fuel=300), J(I,"VH_scope",3,0, loop_fuel=300), J(I,"VH_scopeFn",0), J(I,"VH_scopeLate",0, loop_fuel=300), J(I,"VH_scopeLate",1, loop_fuel=300), J(I,"VH_scopeLate",2, loop_fuel=300)],
-  thorough=[J(I,"VH_scopeLate",0, loop_fuel=300), J(I,"VH_scopeLate",1, loop_fuel=300), J(I,"VH_scopeLate",2, loop_fuel=300), J(I,"VH_scope",1,2, loop_fuel=300), J(I,"VH_scope",2,1, loop_fuel=300), J(I,"VH_scope",3,1, loop_fuel=300), J(I,"VH_scope",3,0, loop_fuel=300), J(I,"VH_scopeFn",0)])
+  quick=[J(I,"VH_scope",1,1, loop_fuel=300), J(I,"VH_scope",2,1, loop_fuel=300), J(I,"VH_scope",3,0, loop_fuel=300), J(I,"VH_scopeFn",0), J(I,"VH_scopeLate",0, loop_fuel=300), J(I,"VH_scopeLate",1, loop_fuel=300), J(I,"VH_scopeLate",2, loop_fuel=300), J(I,"VH_paramShadow",0), J(I,"VH_paramShadow",1)]+[J(I,"VH_scopeBlockFn",c, loop_fuel=300) for c in (0,1,2)],
+  thorough=[J(I,"VH_scopeBlockFn",c, loop_fuel=300) for c in (0,1,2)]+[J(I,"VH_paramShadow",0), J(I,"VH_paramShadow",1), J(I,"VH_scopeLate",0, loop_fuel=300), J(I,"VH_scopeLate",1, loop_fuel=300), J(I,"VH_scopeLate",2, loop_fuel=300), J(I,"VH_scope",1,2, loop_fuel=300), J(I,"VH_scope",2,1, loop_fuel=300), J(I,"VH_scope",3,1, loop_fuel=300), J(I,"VH_scope",3,0, loop_fuel=300), J(I,"VH_scopeFn",0)])
 
 # ---------------- C04 / C05 / C06 ----------------
 stmt_quick = [J(I,"VH_stmt",0,1,3, loop_fuel=400), J(I,"VH_stmt",1,1,3, loop_fuel=400)]
@@ -59,10 +59,10 @@ stmt_thorough = stmt_quick + [J(I,"VH_stmt",0,2,2, loop_fuel=400), J(I,"VH_stmt"
 order_all = [J(I,"VH_order",w,0,0) for w in range(15)]
 order_faulty = [J(I,"VH_order",w,0,2) for w in (0,3,4,5,6,7,14)]
 props["C04"] = dict(title="Calls bind arguments by position, return exactly; closures own captured state",
-  bounds="function bodies { S ; tail } with S every statement shape of nesting depth 1 (thorough 2) over probe, print, break, continue, return, if, if/else, while, for, block; 3 (thorough up to 5) outcomes per probe (loops of more iterations are outside); call node with 3 argument probes of every kind; closure programs of VH_closure (counter factory, two closures over one variable, recursion to depth 3, every interleaving of 3 calls; VH_reentrant: a 2-3 parameter call site re-entered through any argument position to depth 1-3, twice)",
+  bounds="function bodies { S ; tail } with S every statement shape of nesting depth 1 (thorough 2) over probe, print, break, continue, return, if, if/else, while, for, block; 3 (thorough up to 5) outcomes per probe (loops of more iterations are outside); call node with 3 argument probes of every kind; closure programs of VH_closure (counter factory, two closures over one variable, recursion to depth 3, every interleaving of 3 calls; VH_reentrant: a 2-3 parameter call site re-entered through any argument position to depth 1-3, twice; VH_loopClosure: closures made by 3 iterations of a while/for loop, declared directly in the body or in a bare block / if-block / inner loop inside it, called after the loop in any order)",
   assumptions=["oracle: reference semantics refExec (DESIGN E.3); a break/continue escaping a function body is unspecified"]+A_PROBE+A_COMMON[:1],
-  quick=[stmt_quick[1], J(I,"VH_order",3,0,0), J(I,"VH_closure",0), J(I,"VH_closure",1), J(I,"VH_closure",2), J(I,"VH_arity"), J(I,"VH_scopeFn",0), J(I,"VH_reentrant")],
-  thorough=[s for s in stmt_thorough if s["args"][0]==1]+[J(I,"VH_order",3,0,0), J(I,"VH_order",3,1,0), J(I,"VH_closure",0), J(I,"VH_closure",1), J(I,"VH_closure",2), J(I,"VH_arity"), J(I,"VH_reentrant")],
+  quick=[stmt_quick[1], J(I,"VH_order",3,0,0), J(I,"VH_closure",0), J(I,"VH_closure",1), J(I,"VH_closure",2), J(I,"VH_arity"), J(I,"VH_scopeFn",0), J(I,"VH_reentrant"), J(I,"VH_loopClosure")],
+  thorough=[s for s in stmt_thorough if s["args"][0]==1]+[J(I,"VH_order",3,0,0), J(I,"VH_order",3,1,0), J(I,"VH_closure",0), J(I,"VH_closure",1), J(I,"VH_closure",2), J(I,"VH_arity"), J(I,"VH_reentrant"), J(I,"VH_loopClosure")],
   only_ids="^(evaluation-sequence-as-reference|evaluations-match-reference|all-reference-events-happened|print-matches-reference|call-.*|failed-call-yields-nil|argument-.*|arguments-arrive-by-position|callee-entered-.*|closure-.*|arity-.*|recursion-.*|read-.*|diagnostic-expected-by-the-scope-model|every-expected-read-happened|scope-error-reported)$")
 props["C05"] = dict(title="Branches and loops run exactly the arms and iterations their conditions dictate",
   bounds="top-level programs { S ; tail } with S every statement shape of nesting depth 1 (thorough 2); 3 (thorough up to 5) outcomes per probe: loops of more iterations are outside the bound (cut and counted)",
@@ -72,8 +72,8 @@ props["C05"] = dict(title="Branches and loops run exactly the arms and iteration
 props["C06"] = dict(title="A runtime error stops the program: true cause, right line, nothing afterwards",
   bounds="as C04/C05 (every statement shape, failing probe at every position and invocation), every expression node kind with probe operands of every value kind, exit status through the real main on concrete faulty scripts; diagnostics that quote user text holding a '%' (VH_diagQuoted); non-termination after a diagnostic is detected by loop fuel and confirmed by a native run that does not finish",
   assumptions=["'describes that operation' is checked as: the first diagnostic is the one produced for the planted fault and names its line"]+A_PROBE+A_COMMON[:1],
-  quick=stmt_quick+order_all+order_faulty+[J("main","VH_outcome",2), J("main","VH_outcome",3), J(I,"VH_scope",1,1, loop_fuel=300)]+[J(I,"VH_diagQuoted",w) for w in range(3)],
-  thorough=stmt_thorough+order_all+order_faulty+[J(I,"VH_order",w,1,0) for w in range(15)]+[J(I,"VH_order",w,1,2) for w in (0,3,4,5,6,7,14)]+[J("main","VH_outcome",2), J("main","VH_outcome",3), J(I,"VH_scope",2,1, loop_fuel=300)]+[J(I,"VH_diagQuoted",w) for w in range(3)],
+  quick=stmt_quick+order_all+order_faulty+[J("main","VH_outcome",2), J("main","VH_outcome",3), J("main","VH_outcome",4), J(I,"VH_scope",1,1, loop_fuel=300)]+[J(I,"VH_diagQuoted",w) for w in range(3)],
+  thorough=stmt_thorough+order_all+order_faulty+[J(I,"VH_order",w,1,0) for w in range(15)]+[J(I,"VH_order",w,1,2) for w in (0,3,4,5,6,7,14)]+[J("main","VH_outcome",2), J("main","VH_outcome",3), J("main","VH_outcome",4), J(I,"VH_scope",2,1, loop_fuel=300)]+[J(I,"VH_diagQuoted",w) for w in range(3)],
   only_ids="^(no-evaluation-after-first-diagnostic|nothing-printed-after-first-diagnostic|nothing-evaluated-after-first-diagnostic|first-diagnostic-.*|stray-signal-diagnostic-names-its-line|terminates-after-diagnostic|flag-iff-diagnostic|no-operand-evaluated-after-diagnostic|callee-not-entered-after-diagnostic|nothing-printed-after-diagnostic|diagnostic-sets-flag|no-diagnostic-no-flag|runtime-error-.*|missing-diagnostic)$")
 
 # ---------------- C09 / C10 ----------------
@@ -96,13 +96,13 @@ props["C10"] = dict(title="Numeric literals denote the correctly rounded value i
 props["C11"] = dict(title="Arrays are bounds-checked shared references; len/append/remove are pure sequence ops",
   bounds="histories of 1 (thorough 2) operations on up to three variables (two possibly aliased) over an initial array of 0-3 elements: indexed write/read with an index value of arbitrary kind (unconstrained doubles), length, append of 1 or 2 values, remove at an arbitrary index value; all variables compared with the list model after every step; plus one step of append/append/remove/write from an array of n elements (0-200, thorough to 1100, around every power of two) with 0-64 (thorough 600) spare slots behind them (VH_arrayBig)",
   assumptions=["oracle: list model of DESIGN E.7", "a string index that is an integer numeral is coerced by the code and not mentioned by the statement: not asserted", "A-growslice: append follows runtime.growslice of go1.23 (size-class rounding)"]+A_VALUES+A_COMMON[:3],
-  quick=[J(I,"VH_array",1,s) for s in (0,1,3)]+[J(I,"VH_array",2,2), J(I,"VH_array",2,3)]+[J(I,"VH_arrayBig",n,sp) for n in (0,1,3,31,32,33,63,64,65,127,128,129,200) for sp in (0,1,7,64)],
-  thorough=[J(I,"VH_arrayBig",n,sp) for n in (0,1,2,3,7,8,9,15,16,17,31,32,33,63,64,65,100,127,128,129,255,256,257,511,512,513,1023,1024,1025,1100) for sp in (0,1,7,64,600)]+[J(I,"VH_array",1,s) for s in (0,1,2,3)]+[J(I,"VH_array",2,s) for s in (1,2,3)]+[J(I,"VH_array",3,2, max_instrs=8000000)])
+  quick=[J(I,"VH_array",1,s) for s in (0,1,3)]+[J(I,"VH_array",2,2), J(I,"VH_array",2,3)]+[J(I,"VH_arrayBig",n,sp) for n in (0,1,3,5,7,31,32,33,63,64,65,127,128,129,200) for sp in (0,1,7,64)],
+  thorough=[J(I,"VH_arrayBig",n,sp) for n in (0,1,2,3,5,6,7,8,9,15,16,17,31,32,33,63,64,65,100,127,128,129,255,256,257,511,512,513,1023,1024,1025,1100) for sp in (0,1,7,64,600)]+[J(I,"VH_array",1,s) for s in (0,1,2,3)]+[J(I,"VH_array",2,s) for s in (1,2,3)]+[J(I,"VH_array",3,2, max_instrs=8000000)])
 obj_ids13 = "initialisers-run-in-source-order|every-initialiser-ran-once|same-listing-every-time|diagnostic-text-repeats|initialisers-run-in-the-same-order-every-time|same-output-every-time|duplicate-key-.*"
 props["C12"] = dict(title="Objects are shared key->value maps with consistent read, write, delete, listing",
   bounds="object literals with 0-3 distinct keys parsed by the real parser, then histories of 1 (thorough 2) operations (read/write/delete of present and absent keys through either alias, key and value listing, print, property access on a non-object); every Go map range takes a fresh iteration order (rotations of insertion order; thorough: all permutations)",
   assumptions=["oracle: map model of DESIGN E.7", "A-maporder: counterexamples are searched over the orders the go1.23 runtime produces for small maps (rotations); thorough additionally explores every permutation"]+A_COMMON[:3],
-  quick=[J(I,"VH_object",k,1) for k in (0,1,2,3)]+[J(I,"VH_printShared",w) for w in (1,2,3)], thorough=[J(I,"VH_printShared",w) for w in (1,2,3)]+[J(I,"VH_object",k,s, all_perms=True) for k in (0,1,2,3) for s in (1,2)],
+  quick=[J(I,"VH_object",k,1) for k in (0,1,2,3)]+[J(I,"VH_printShared",w) for w in (1,2,3,4)], thorough=[J(I,"VH_printShared",w) for w in (1,2,3,4)]+[J(I,"VH_object",k,s, all_perms=True) for k in (0,1,2,3) for s in (1,2)],
   skip_ids="^("+obj_ids13+")$")
 props["C13"] = dict(title="Execution is deterministic",
   bounds="every range-over-map site reachable in the repo (object literal evaluation, key listing, value listing, ObjectLiteral.String in the missing-property diagnostic) with 2-3 keys (also with one name written twice: VH_dupKeys), each loop under an independent iteration order; plus the static inventory of nondeterminism sources (any call outside the modelled stubs makes the run inconclusive)",
@@ -123,8 +123,8 @@ props["C14"] = dict(title="Operands are evaluated once, left to right; logic sho
 props["C15"] = dict(title="print writes each value faithfully, newline-terminated, consistent with +",
   bounds="the real PrintStatement on every value kind (payload size 0-1, thorough 2), strings nested in arrays and objects (1-2 code points below U+0300, where NFC is the identity; and four concrete texts NFC rewrites — composing accent, composition-excluded U+09DF/U+09DC, two-part vowel sign — as printed string, array element, property value and property name: the whole line must be its own NFC), and the text + splices for numbers and strings (C02's concatenation obligations)",
   assumptions=["NOT decided: that fmt's %v of a float64 is the shortest round-trip numeral with no exponent below 10^6 (fmtF is uninterpreted) and that norm.NFC is NFC (uninterpreted above U+02FF)", "containers: format-agnostic — the text must contain every element / key and value, in order"]+A_VALUES+A_COMMON[:2],
-  quick=[J(I,"VH_print",0,0), J(I,"VH_print",1,0), J(I,"VH_printNested",1,0), J(I,"VH_printNested",1,1), J(I,"VH_printNested",0,0), J(I,"VH_printShared",0), J(I,"VH_printShared",1), J(I,"VH_printShared",2), J(I,"VH_printShared",3), J(I,"VH_binary",1,1,0)]+[J(I,"VH_printNFC",w) for w in range(5)],
-  thorough=[J(I,"VH_print",s,r) for s in (0,1,2) for r in (0,1)]+[J(I,"VH_printNested",n,o) for n in (0,1,2) for o in (0,1)]+[J(I,"VH_printShared",w) for w in range(4)]+[J(I,"VH_printNFC",w) for w in range(5)]+[J(I,"VH_binary",a,b,0) for (a,b) in ((0,0),(1,1),(2,1))],
+  quick=[J(I,"VH_print",0,0), J(I,"VH_print",1,0), J(I,"VH_printNested",1,0), J(I,"VH_printNested",1,1), J(I,"VH_printNested",0,0), J(I,"VH_printShared",0), J(I,"VH_printShared",1), J(I,"VH_printShared",2), J(I,"VH_printShared",3), J(I,"VH_printShared",4), J(I,"VH_binary",1,1,0)]+[J(I,"VH_printNFC",w) for w in range(5)],
+  thorough=[J(I,"VH_print",s,r) for s in (0,1,2) for r in (0,1)]+[J(I,"VH_printNested",n,o) for n in (0,1,2) for o in (0,1)]+[J(I,"VH_printShared",w) for w in range(5)]+[J(I,"VH_printNFC",w) for w in range(5)]+[J(I,"VH_binary",a,b,0) for (a,b) in ((0,0),(1,1),(2,1))],
   only_ids="^(print-.*|printed-.*|nested-.*|bin-string-result|bin-result-is-string)$")
 props["C16"] = dict(title="A value behaves the same however it was produced",
   bounds="11 consumers (both operand positions of every binary operator, unary operators, condition, print alone / inside an array, array index, math built-in argument, object property round trip, delete key, self-equality) run on two host representations of the same value: string vs rune slice (1 code point; thorough 0-2), float64 vs int64, float64 vs int (|n| <= 2^53), and the result of each of 16 producers (every math built-in, length, bitwise/shift/not, addition, modulo, concatenation, run on symbolic arguments) vs the canonical float64/string of the same value; representation pairs come from the reachable-kind inventory and from what the producers actually yield; plus 6 node kinds evaluated with operands as computed expressions vs as literal nodes, so the check is as wide as the tree's representations",
@@ -134,25 +134,25 @@ props["C16"] = dict(title="A value behaves the same however it was produced",
 
 # ---------------- C17 ----------------
 props["C17"] = dict(title="Math built-ins compute their mathematical function; misuse is a reported error",
-  bounds="each of the 9 math built-ins, the clock and the length built-in, resolved by its documented name in the real global scope and invoked through the real Call case with 0-3 (thorough 4) arguments of every value kind (unconstrained doubles)",
+  bounds="each of the 9 math built-ins, the clock and the length built-in, resolved by its documented name in the real global scope and invoked through the real Call case with 0-3 (thorough 4) arguments of every value kind (unconstrained doubles); pow with six whole exponents over base points/intervals where a product-then-reciprocal or any other hand-made power differs from the platform's (VH_powWhole)",
   assumptions=["abs, sqrt, round are exact (fp.abs, fp.sqrt RNE, roundToIntegral RNA); pow/sin/cos/tan are identities on uninterpreted stubs (accuracy of the platform's math library is NOT decided)", "string arguments are coerced by the code and not mentioned by the documentation: not asserted", "NaN arguments to min/max are excluded", "A-time: the clock is an arbitrary int64"]+A_VALUES+A_COMMON[:3],
-  quick=[J(I,"VH_math",w,n) for w in range(11) for n in (0,1,2,3) if not (w in (7,8) and n==3)],
-  thorough=[J(I,"VH_math",w,n) for w in range(11) for n in (0,1,2,3,4) if not (w in (7,8) and n==4)])
+  quick=[J(I,"VH_math",w,n) for w in range(11) for n in (0,1,2,3) if not (w in (7,8) and n==3)]+[J(I,"VH_powWhole",k) for k in range(6)],
+  thorough=[J(I,"VH_powWhole",k) for k in range(6)]+[J(I,"VH_math",w,n) for w in range(11) for n in (0,1,2,3,4) if not (w in (7,8) and n==4)])
 
 # ---------------- C18 ----------------
 props["C18"] = dict(title="Meaning is invariant under layout, digit script, synonyms, renaming, parentheses",
-  bounds="(a) a blank/tab/CR/LF/line comment/block comment inserted at every chunk boundary of sources of n<=2 code points (whole scans, relational) plus C09's step lemma for longer texts; (b) digit-script swap on number chunks of n<=3 (thorough 5) and on numeric strings at run time; (c) both spellings of and/or in the lexer (C09) and in eval(Logical); (d) every name a symbolic code point in the scope programs of C03; (e) eval(Grouping P) = eval(P) for every outcome of P, and the parser yields Grouping for parentheses (C01 template); (f) unselected arms / function bodies / code after return are never evaluated (C04/C05 reference traces)",
+  bounds="(a) a blank/tab/CR/LF/line comment/block comment inserted at every chunk boundary of sources of n<=2 code points (whole scans, relational) plus C09's step lemma for longer texts; (b) digit-script swap on number chunks of n<=3 (thorough 5) and on numeric strings at run time; (c) both spellings of and/or in the lexer (C09) and in eval(Logical); (d) every name a symbolic code point in the scope programs of C03; (e) eval(Grouping P) = eval(P) for every outcome of P, and the parser yields Grouping for parentheses (C01 template); (f) unselected arms / function bodies / code after return are never evaluated (C04/C05 reference traces), and a declaration added after the থামো / ফেরত that ends a loop body or a block in a function body changes neither output nor failure (VH_deadCode, all names symbolic)",
   assumptions=["whole-program composition of the six families is by the argument of DESIGN §4", "diagnostics quoting source text (renamed identifiers, '(group …)' in the missing-property message) are compared on line and message template only"],
-  quick=[J("lexer","VH_blank",1), J("lexer","VH_blank",2), J("lexer","VH_swap",3), J(I,"VH_logical",0,0), J(I,"VH_logical",0,1), J(I,"VH_grouping",0), J(I,"VH_grouping",1), J(I,"VH_scope",2,1, loop_fuel=300), J("parser","VH_template",2), stmt_quick[0]]+[J(I,"VH_relExpr",w,1,5) for w in (0,1,3)],
-  thorough=[J("lexer","VH_blank",n) for n in (1,2,3)]+[J("lexer","VH_swap",5), J(I,"VH_swapNum",2), J(I,"VH_logical",1,0), J(I,"VH_logical",1,1), J(I,"VH_grouping",0), J(I,"VH_grouping",1), J(I,"VH_grouping",2), J(I,"VH_scope",3,1, loop_fuel=300), J("parser","VH_template",2)]+stmt_thorough,
-  only_ids="^(literal-operand-.*|layout-.*|swap-.*|logical-.*|result-is-.*|right-.*|left-evaluated-once|grouping-.*|read-.*|diagnostic-expected-by-the-scope-model|every-expected-read-happened|scope-error-reported|tree-is-the-reference-tree|evaluation-sequence-as-reference|evaluations-match-reference)$")
+  quick=[J("lexer","VH_blank",1), J("lexer","VH_blank",2), J("lexer","VH_swap",3), J(I,"VH_logical",0,0), J(I,"VH_logical",0,1), J(I,"VH_grouping",0), J(I,"VH_grouping",1), J(I,"VH_scope",2,1, loop_fuel=300), J("parser","VH_template",2), stmt_quick[0]]+[J(I,"VH_relExpr",w,1,5) for w in (0,1,3)]+[J(I,"VH_deadCode",w, loop_fuel=300) for w in (0,1,2)],
+  thorough=[J("lexer","VH_blank",n) for n in (1,2,3)]+[J("lexer","VH_swap",5), J(I,"VH_swapNum",2), J(I,"VH_logical",1,0), J(I,"VH_logical",1,1), J(I,"VH_grouping",0), J(I,"VH_grouping",1), J(I,"VH_grouping",2), J(I,"VH_scope",3,1, loop_fuel=300), J("parser","VH_template",2)]+stmt_thorough+[J(I,"VH_deadCode",w, loop_fuel=300) for w in (0,1,2)],
+  only_ids="^(dead-code-.*|literal-operand-.*|layout-.*|swap-.*|logical-.*|result-is-.*|right-.*|left-evaluated-once|grouping-.*|read-.*|diagnostic-expected-by-the-scope-model|every-expected-read-happened|scope-error-reported|tree-is-the-reference-tree|evaluation-sequence-as-reference|evaluations-match-reference)$")
 
 # ---------------- C19 / C20 ----------------
 props["C19"] = dict(title="Exit status and output streams classify every run correctly",
   bounds="the real main/runFile/run with 0-3 extra arguments, script names of 1-4 code points over {a,b,n,.,/} (every extension shape), present/absent file, one concrete script per outcome class (clean, lexical error, syntax error, runtime error at top level and inside a loop), scripts of 1-2 (thorough 3) lines drawn from a pool of 12 (clean, 6 lexical/syntax errors incl. literals no double can hold, 3 runtime errors) classified by first principles (VH_classify), and stdin of 0-3 lines with/without final newline read by two input calls, the kernel handing the lines over in chunks of every size",
   assumptions=["A-os: os.Args / os.ReadFile / os.Exit / filepath.Ext are modelled (Ext exactly, on code points); A-stdin: a bufio.Reader pulls a chunk of 1..all remaining lines and keeps the rest in that reader object", "the whole pipeline runs on concrete scripts here; the per-phase contracts are C08/C09/C06", "natively the scenarios are replayed through the built binary"],
-  quick=[J("main","VH_cli",0,1), J("main","VH_cli",1,3), J("main","VH_cli",1,4), J("main","VH_cli",2,2), J("main","VH_cli",3,1)]+[J("main","VH_outcome",c) for c in range(4)]+[J("main","VH_input",n,f) for n in (0,1,2,3) for f in (0,1)]+[J("main","VH_classify",1), J("main","VH_classify",2)],
-  thorough=[J("main","VH_classify",1), J("main","VH_classify",2), J("main","VH_classify",3)]+[J("main","VH_cli",0,1)]+[J("main","VH_cli",1,n) for n in (1,2,3,4,5)]+[J("main","VH_cli",2,2), J("main","VH_cli",3,1)]+[J("main","VH_outcome",c) for c in range(4)]+[J("main","VH_input",n,f) for n in (0,1,2,3) for f in (0,1)])
+  quick=[J("main","VH_cli",0,1), J("main","VH_cli",1,3), J("main","VH_cli",1,4), J("main","VH_cli",2,2), J("main","VH_cli",3,1)]+[J("main","VH_outcome",c) for c in range(5)]+[J("main","VH_input",n,f) for n in (0,1,2,3) for f in (0,1)]+[J("main","VH_classify",1), J("main","VH_classify",2)],
+  thorough=[J("main","VH_classify",1), J("main","VH_classify",2), J("main","VH_classify",3)]+[J("main","VH_cli",0,1)]+[J("main","VH_cli",1,n) for n in (1,2,3,4,5)]+[J("main","VH_cli",2,2), J("main","VH_cli",3,1)]+[J("main","VH_outcome",c) for c in range(5)]+[J("main","VH_input",n,f) for n in (0,1,2,3) for f in (0,1)])
 props["C20"] = dict(title="In the REPL a failed line never affects later lines; expression values echo",
   bounds="the real runPrompt/run on sessions of 1-2 (thorough 3) lines drawn from a pool of 8 representative lines (bare expression, print, lexical error, syntax error, two runtime errors, declaration, built-in call): plus sessions that repeat one line 12 (thorough 40) times before any other line (state building up over a session); plus sessions whose first line is 4095-4097 or 70000 bytes long (thorough: around 8192 and 65536, and 140000) followed by two lines (VH_replLong: buffer boundaries of the line reader); the session's stdout/stderr must be the concatenation of the responses each line gives as the only line of a fresh process (package-level state restored to its post-initialisation value)",
   assumptions=["A-stdin: bufio.Scanner delivers one line per Scan unless the line reaches its token limit (64 KB unless Buffer raises it), after which Scan reports false; bufio.Reader.ReadLine hands out pieces of at most 4096 bytes", "lines that call the input built-in are outside the property's pool"],
@@ -164,6 +164,8 @@ props["C07"] = dict(title="No program can make the interpreter terminate abnorma
   assumptions=["unbounded user recursion ends in a host stack overflow: excluded by the property's domain", "fmt on a self-containing slice/map is modelled as what it is: unbounded recursion ending in a runtime abort (VH_cyclic)", "allocation failure and faults inside stubbed library code are outside"],
   quick=[J(I,"VH_cyclic",w) for w in range(4)], thorough=[J(I,"VH_cyclic",w) for w in range(4)], panics_only=True, include=[p for p in ["C01","C02","C03","C04","C05","C06","C08","C09","C10","C11","C12","C14","C15","C16","C17","C18","C19","C20"]])
 
+props["C02"]["quick"] += [J(I,"VH_powWhole",k) for k in range(6)]
+props["C02"]["thorough"] += [J(I,"VH_powWhole",k) for k in range(6)]
 props["C01"]["selftest"] = [J("parser","VH_selftest")]
 props["C08"]["selftest"] = [J("parser","VH_selftest"), J("lexer","VH_selftest")]
 for pid in ("C02","C03","C04","C05","C06","C07","C11","C12","C13","C14","C15","C16","C17"):
